@@ -7,6 +7,7 @@ package compat
 import (
 	"fmt"
 	"reflect"
+	"strings"
 	"sync"
 	"testing"
 
@@ -199,7 +200,8 @@ func c17Init() {
 	})
 }
 
-var c17BadRuns = []string{"\xff", "\xfe\xff", "\xc3\x28", "\xe2\x82", "\xf0\x9f\x98", "\xed\xa0\x80", "\xc0\xaf", "\x80", "\xbf\xbf\xbf", "\xf8\x88\x80\x80\x80"}
+var c17BadRuns = []string{"\xff", "\xfe\xff", "\xc3\x28", "\xe2\x82", "\xf0\x9f\x98", "\xed\xa0\x80", "\xc0\xaf", "\x80", "\xbf\xbf\xbf", "\xf8\x88\x80\x80\x80",
+	"\xc3\xa9\xff", "\xe6\x97\xa5\xe6\x9c\xac\x80", "\xf0\x9f\x98\x80\xc3\x28"} // (the last three: valid multi-byte characters in front of the invalid bytes)
 
 func c17Gen(t *rapid.T) c17Case {
 	c17Init()
@@ -342,12 +344,39 @@ func TestVF_C17_Codec(t *testing.T) {
 			t.Fatal(err)
 		}
 		c17DoPrime(c.Root, c.Prime)
+		if strings.HasPrefix(c.Note, "5 MiB of unknown-field padding") { // stored without the padding
+			c.Wire = append(append([]byte{}, c.Wire...), protowire.AppendBytes(protowire.AppendTag(nil, 19999, protowire.BytesType), make([]byte, 5<<20))...)
+		}
 		_, err := c17Oracle(c.Root, c.Wire)
 		st.Case(vfshared.Fingerprint(c.Root, string(c.Wire)), true)
 		if err != nil {
 			c17Fail(t, st, part, c, err)
 		}
 		return
+	}
+	// large messages (the proxy accepts up to 128 MiB): a repairable legacy encoding followed by 5 MiB in a field the
+	// schema does not know (dropped by both decoders) - the repair must not depend on the size of the message
+	if sh, _ := vfshared.Shard(); sh == 0 {
+		gen := rapid.Custom(c17Gen)
+		pad := protowire.AppendBytes(protowire.AppendTag(nil, 19999, protowire.BytesType), make([]byte, 5<<20))
+		done := 0
+		for i := 1; i <= 400 && done < 3; i++ {
+			c := gen.Example(i)
+			if c.Kind != "failure_invalid" {
+				continue
+			}
+			c.Wire = append(append([]byte{}, c.Wire...), pad...)
+			c.Note = "5 MiB of unknown-field padding appended"
+			v, err := c17Oracle(c.Root, c.Wire)
+			if err != nil {
+				c.Wire = c.Wire[:len(c.Wire)-len(pad)] // keep the replay small: the padding is described in the note
+				c17Fail(t, st, part, c, fmt.Errorf("%v [with 5 MiB appended in unknown field 19999]", err))
+			}
+			if v.repaired {
+				done++
+				st.Case(vfshared.Fingerprint(c.Root, "big", i), true, "message_larger_than_4MiB_repaired")
+			}
+		}
 	}
 	rapid.Check(t, func(rt *rapid.T) {
 		c := c17Gen(rt)
